@@ -309,6 +309,40 @@ Eval(p, api, fn, sig, args, cb, o) ==
              /\ UNCHANGED memo
 
 ---------------------------------------------------------------------------------------
+(* Auxiliary entry points *)
+
+\* masa_test_poly: the polynomial self-test of the selected solution object; 0 = passed
+TestPoly(p, api, o) ==
+  /\ Note("testpoly", p, api, <<>>, o)
+  /\ IF ~HasSel(p) THEN Fatal(o) ELSE
+     /\ Returned(o) /\ o.ret = 0 /\ Quiet(o)
+     /\ UNCHANGED <<reg, sel, live, status, dflt, memo>>
+
+\* masa_get_numeric_version / masa_version_stdout: no solution needed, nothing changes
+Version(p, api, o, numeric) ==
+  /\ Note("version", p, api, <<>>, o)
+  /\ Returned(o) /\ o.ret = numeric /\ o.ret2 = 0 /\ Quiet(o)
+  /\ UNCHANGED <<reg, sel, live, status, dflt, memo>>
+
+\* pass_func(f, a): calls the caller's function once, on the selected solution object, and returns its value;
+\* accept is the trace specification's judgement of the returned value against f(a)
+PassFunc(p, api, o, accept) ==
+  /\ Note("passfunc", p, api, <<>>, o)
+  /\ IF ~HasSel(p) THEN Fatal(o) ELSE
+     /\ Returned(o) /\ Quiet(o) /\ o.ncb = 1 /\ accept
+     /\ UNCHANGED <<reg, sel, live, status, dflt, memo>>
+
+\* masa_test_default(v): ALWAYS terminates the process -- status 1 when v is the uninitialised marker or the
+\* sentinel, status 0 otherwise; no diagnostic, no solution needed
+\* (special: v is the marker or the sentinel -- decided by the instance, whose value domains differ)
+TestDefault(p, api, v, special, o) ==
+  /\ Note("testdefault", p, api, <<v>>, o)
+  /\ o.end = IF special THEN "exit1" ELSE "exit0"
+  /\ Quiet(o)
+  /\ status' = "exited"
+  /\ UNCHANGED <<reg, sel, live, dflt, memo>>
+
+---------------------------------------------------------------------------------------
 \* A new process: empty registries, nothing selected.  What is known about defaults carries over
 \* (they are a fixed function of the library, not of the process).
 Restart ==
@@ -359,11 +393,11 @@ EvalPure  == [][InProc => (act'.name = "eval" => UNCHANGED <<reg, sel, live>>)]_
 FatalIntact == [][InProc => (IsFatalOutcome(act'.o) => UNCHANGED <<reg, sel, live>>)]_vars
 FatalOnlyIfMisuse ==
   [][InProc => (IsFatalOutcome(act'.o) =>
-        \/ act'.name \notin {"init", "select", "list", "printid"} /\ sel[ActP] = None
+        \/ act'.name \notin {"init", "select", "list", "printid", "version", "testdefault"} /\ sel[ActP] = None
         \/ act'.name = "select" /\ act'.args[1] \notin DOMAIN reg[ActP]
         \/ act'.name = "init" /\ Resolve(act'.args[2]) = None)]_vars
 NoUseBeforeInit ==
-  [][InProc => (act'.name \notin {"init", "select", "list", "printid", "start"} /\ sel[ActP] = None => IsFatalOutcome(act'.o))]_vars
+  [][InProc => (act'.name \notin {"init", "select", "list", "printid", "version", "testdefault", "start"} /\ sel[ActP] = None => IsFatalOutcome(act'.o))]_vars
 \* C12: re-initialising replaces by a fresh default instance and makes it the target
 ReinitFresh ==
   [][InProc => (act'.name = "init" /\ Returned(act'.o) =>
